@@ -7,6 +7,7 @@ CONSTANTS
   Target = 60000
   InitMs = 120000
   MaxEpoch = 1000
+  BaseMin = 28000000
   K = 15
-INVARIANT EmitSim
+INVARIANTS BigAgrees EmitSim
 CHECK_DEADLOCK FALSE
